@@ -25,7 +25,9 @@ RULE = ("[phase 2: + lazy results requested under one configuration and consumed
         "share a format object or are re-formatted after a printing, mixed-type enum values, materialise-then-iterate, "
         "line-end characters in contents, the palette argument (none / palette class / palette object) with explicit or "
         "implicit configuration and no_color; round 5: line objects kept and rendered afterwards, two enum field types with "
-        "overlapping values (reference also from a fresh interpreter), equally named helper-made palette classes] histories of 3-16 operations over 1-5 configurations (created, dropped with gc.collect(), made global), 1-2 enum "
+        "overlapping values (reference also from a fresh interpreter), equally named helper-made palette classes; round 6: "
+        "texts handed out by a result (fixed_len / get_ch_text / + / slices) extended in place by the caller before the "
+        "result is consumed again, the palette given as the object synced with the global configuration x no_color] histories of 3-16 operations over 1-5 configurations (created, dropped with gc.collect(), made global), 1-2 enum "
         "field types and 2-4 printable objects of all five kinds (pretty-printed data, tables incl. enum columns / limits / "
         "break lines / multi-line titles / truncation, record formats, git history reports over stub data, console help), "
         "each rendered coloured, without colours, line by line (before or after the whole text); streams: random, `reuse` "
@@ -55,7 +57,7 @@ ASSUMPTIONS = ["an operation of the model that raises leaves the state as it was
                "circular descriptions that only appear when a palette class registers its defaults (e.g. {'WARN': "
                "'TABLE.WARN'}: every table rendering raises AssertionError) are outside the model (reply OUT-OF-FUEL) and "
                "are not generated"]
-THEOREMS = ["C10.cfg_ok", "C10.key_by_object", "C10.driver_alloc_valid", "C10.reachable_inv", "C10.layout_indep", "C10.history_free", "C10.history_free_steady", "C10.same_description_same_output", "C10.nocolor_no_esc", "C10.strip_pattern_ok", "C10.strip_eq", "C10.lazy_lines_history_free", "C10.lazy_whole_history_free", "C10.lines_eq_whole", "C10.same_colors_same_output", "C10.registration_keeps_colors", "C10.gp_synced"]
+THEOREMS = ["C10.cfg_ok", "C10.key_by_object", "C10.driver_alloc_valid", "C10.reachable_inv", "C10.layout_indep", "C10.history_free", "C10.history_free_steady", "C10.same_description_same_output", "C10.nocolor_no_esc", "C10.strip_pattern_ok", "C10.strip_eq", "C10.lazy_lines_history_free", "C10.lazy_whole_history_free", "C10.lines_eq_whole", "C10.same_colors_same_output", "C10.registration_keeps_colors", "C10.whole_memo_stable", "C10.set_global_resyncs", "C10.gp_synced"]
 
 ESC = "\x1b"
 
@@ -372,6 +374,8 @@ class _Obj:
             kw = dict(palette=self.top_class(pk), no_color=no_color, colors_conf=conf)
         elif pk == "o":
             kw = dict(palette=self.top_class()(colors_conf=conf), no_color=no_color)
+        elif pk == "s":            # the palette object of this class that is synced with the global configuration
+            kw = dict(palette=self.top_class()(synced=True), no_color=no_color)
         else:
             kw = dict(no_color=no_color, colors_conf=conf)
         k = self.kind
@@ -742,7 +746,7 @@ def _replay(case, before=None, after=None):
     for i, op in enumerate(case["ops"]):
         if (op[0] in ("drop", "setglobal") and op[1] in failed or op[0] == "render" and op[2] in failed
                 or op[0] == "res" and op[3] in failed
-                or op[0] == "str" and op[1] not in results or op[0] == "iter" and op[2] not in results
+                or op[0] in ("str", "derive") and op[1] not in results or op[0] == "iter" and op[2] not in results
                 or op[0] == "next" and op[1] not in iters):
             out.append("skip")
             continue
@@ -811,6 +815,17 @@ def _replay(case, before=None, after=None):
                 out.append("ok %d" % raw if how == "n" else "ok " + enc_str(raw))
                 if after is not None:
                     after(i, res_conf[op[1]])
+            elif op[0] == "derive":
+                # the caller builds something out of a text the result hands out, extending it in place
+                res, how = results[op[1]], op[2]
+                n = len(res)
+                cell = (res.fixed_len(n) if how == "f0" else res.fixed_len(n + 3) if how == "f+" else
+                        res.fixed_len(max(0, n - 3)) if how == "f-" else res.get_ch_text() if how == "get" else
+                        res + "" if how == "add" else "" + res if how == "radd" else res[0:n])
+                cell += " |next cell"
+                cell = res = None
+                _capture(confs)
+                out.append("ok")
             elif op[0] == "iter":
                 iters[op[1]] = (iter(results[op[2]]), op[2])
                 out.append("ok")
@@ -892,6 +907,8 @@ def _finish(case):
             lines.append("res %s %s %s %s %s" % (r, o, k, mode, shape(o)))
         elif op[0] == "str":
             lines.append("str %s %s" % (op[1], op[2] if len(op) > 2 else "s"))
+        elif op[0] == "derive":
+            lines.append("derive %s %s" % (op[1], op[2]))
         elif op[0] == "iter":
             lines.append("iter %s %s" % (op[1], op[2]))
         elif op[0] == "next":
@@ -1490,10 +1507,19 @@ def _shape_ok(spec, enums, objs=None):
         return False
 
 
+def _g(op):
+    """a synced palette object belongs to the global configuration: no explicit configuration with it"""
+    if len(op) > 4 and op[4] == "s":
+        op[2] = "g"
+    return op
+
+
 def _pk(spec, rng):
     """how the palette argument is given: mostly not at all; the palette class; a palette object"""
     if spec["kind"] == "hcmd" or rng.random() < 0.7:
         return []
+    if spec["kind"] in ("pp", "ghist") and rng.random() < 0.3:
+        return ["s"]                        # the palette object synced with the global configuration
     if spec["kind"] == "pp" and rng.random() < 0.5:
         return [rng.choice("12")]           # one of two equally named palette classes made by a helper
     return [rng.choice("cco")]
@@ -1605,7 +1631,7 @@ def _gen_history(rng, tier, late, pattern):
             k = "g"
         elif k is None:
             k = rng.choice(live + ["g"]) if live else "g"
-        ops.append(["render", o, k, mode or _modes(spec, rng)] + _pk(spec, rng))
+        ops.append(_g(["render", o, k, mode or _modes(spec, rng)] + _pk(spec, rng)))
     new_conf()
     if pattern == "reuse":
         a = live[-1]
@@ -1716,7 +1742,7 @@ def _gen_lazy(rng, concurrent):
         elif r < 0.8:
             o = rng.choice(sorted(objs))
             k = "g" if objs[o]["kind"] == "hcmd" else conf()
-            ops.append(["render", o, k, _modes(objs[o], rng)] + _pk(objs[o], rng))
+            ops.append(_g(["render", o, k, _modes(objs[o], rng)] + _pk(objs[o], rng)))
         else:
             ops.append(["gp", rng.randrange(6)])
     for _ in range(rng.randrange(1, 4)):
@@ -1736,7 +1762,12 @@ def _gen_lazy(rng, concurrent):
                 ops.append(["next", i, rng.randrange(1, 4)])
     for _ in range(rng.randrange(2, 7)):
         r = rng.random()
-        if r < 0.3 and results:
+        if r < 0.12 and results:
+            # something is built out of a text the result hands out; then the result is consumed again
+            rr = rng.choice(results)
+            ops.append(["derive", rr, rng.choice(["f0", "f0", "f0", "f+", "f-", "get", "add", "radd", "slice"])])
+            ops.append(["str", rr, rng.choice("ssp")])
+        elif r < 0.3 and results:
             ops.append(["str", rng.choice(results), rng.choice("ssspn")])
             if rng.random() < 0.6:        # materialise first, then iterate the same result
                 i = str(nit)
@@ -1943,13 +1974,15 @@ def _valid(case):
                 return False
             if len(op) > 4 and case["objs"][op[1]]["kind"] == "hcmd":
                 return False
+            if len(op) > 4 and op[4] == "s" and (op[2] != "g" or case["objs"][op[1]]["kind"] not in ("pp", "ghist")):
+                return False
         elif op[0] == "res":
             if op[3] != "g" and op[3] not in confs:
                 return False
             if op[1] in results or not set(case["objs"][op[2]].get("types", {}).values()) <= enums:
                 return False
             results[op[1]] = op[2]
-        elif op[0] == "str":
+        elif op[0] in ("str", "derive"):
             if op[1] not in results:
                 return False
         elif op[0] == "iter":
@@ -2063,7 +2096,7 @@ def tags(case, replies):
         if op[0] == "render":
             yield "render:%s:%s" % (case["objs"][op[1]]["kind"], op[3])
             if len(op) > 4:
-                yield "render:palette=" + {"c": "class", "o": "object", "1": "helper-class", "2": "helper-class"}[op[4]]
+                yield "render:palette=" + {"c": "class", "o": "object", "s": "synced-object", "1": "helper-class", "2": "helper-class"}[op[4]]
         else:
             yield "op:" + op[0]
     yield "ops:%d" % min(len(case["ops"]), 15)
@@ -2093,7 +2126,10 @@ LEVEL_TEXT = ("NOT proved: that the real layout (texts, widths, line breaks) doe
               "iterators are part of the histories; lazy_lines_history_free / lazy_whole_history_free prove that what an "
               "iterator or the first str() gives, whenever and however interleaved, is the pure painting of the object's "
               "lines for the configuration the result was requested for (a held palette is never collected nor overwritten).")
-LEVEL_NOTE = ("Correspondence + oracle only: the layout state of a table (column widths negotiated at the first printing, "
+LEVEL_NOTE = ("Synced palette objects of classes other than GlobalPalette: modelled (mkSynced, re-synced by setGlobal and by "
+              "registrations in the global configuration) and proved re-synced right after set_global (set_global_resyncs); "
+              "that they stay in step over whole histories is proved for global_palette only (gp_synced), for the others it "
+              "rests on the tie. Correspondence + oracle only: the layout state of a table (column widths negotiated at the first printing, "
               "shared / cloned format objects, re-formatting) is not in the Lean model — a fresh copy of the object with the same "
               "format history supplies the shape, so a width that leaks between tables or through a re-format shows as a model / "
               "code difference and as an oracle failure (seed C10-m5), not as a failed proof. Also correspondence only (not theorems): model = code on the generated histories; shapes come from the real code run "
